@@ -270,7 +270,7 @@ fn history_case(prop: &str, steps: Vec<Step>, root: &Path, idx: u64) -> CaseRec 
 /// (`set -e`: a command of the hook that returns non-zero ends it before the state is written and replaces the
 /// exit code of the test case; `IFS=0` / `IFS=3`: an unquoted expansion of the exit code in the hook is split by the
 /// user's IFS -- `(exit 3)` under `IFS=3` must still be recorded as 3 and `echo hi` under `IFS=0` as 0).
-const OPTIONS: [&str; 21] = ["IFS=0", "IFS=3", "function exit { builtin exit 7; }", "function echo { builtin echo \"echo: $*\"; }; function printf { builtin printf 'printf\\n'; }", "unset OLDPWD; set -u", "OLDPWD=; set -u", "set -o posix", "set -a", "set -x", "set -e", "set -u", "set -o pipefail", "set -e -o pipefail", "set -eu", "set -f", "set -C", "set -E", "set -T", "shopt -s nullglob", "shopt -s failglob", "shopt -s extglob; set -e"];
+const OPTIONS: [&str; 24] = ["set -k", "declare -l TESTFILE; declare -i COLUMNS", "SHELL=/bin/changed", "IFS=0", "IFS=3", "function exit { builtin exit 7; }", "function echo { builtin echo \"echo: $*\"; }; function printf { builtin printf 'printf\\n'; }", "unset OLDPWD; set -u", "OLDPWD=; set -u", "set -o posix", "set -a", "set -x", "set -e", "set -u", "set -o pipefail", "set -e -o pipefail", "set -eu", "set -f", "set -C", "set -E", "set -T", "shopt -s nullglob", "shopt -s failglob", "shopt -s extglob; set -e"];
 
 fn option_case(prop: &str, idx: u64, root: &Path) -> CaseRec {
     let opt = OPTIONS[(idx as usize) % OPTIONS.len()];
